@@ -130,6 +130,29 @@ LoopCases ==
                     il \in UNION {InnerLoop(b \o <<Tr(Lc("i"), Lc("j"))>> \o c) : b \in Opt(Jump("j") \cup Jump("i")), c \in Opt(Jump("j"))}}}
 
 (***************************************************************************)
+(* "multifor": multi-key for loops over nested maps (2 and 3 keys), with    *)
+(* break / continue in the body, alone and inside an outer loop             *)
+(***************************************************************************)
+SForMulti(kns, vn, e, body) == [t |-> "formulti", kns |-> kns, vn |-> vn, e |-> e, body |-> body]
+Deep3 == MapLit(<< <<EStr("x"), MapLit(<< <<EStr("a"), MapLit(<< <<EStr("p"), EInt(1)>>, <<EStr("q"), EInt(2)>> >>)>>,
+                                          <<EStr("b"), MapLit(<< <<EStr("p"), EInt(3)>> >>)>> >>)>>,
+                   <<EStr("y"), MapLit(<< <<EStr("a"), MapLit(<< <<EStr("p"), EInt(4)>>, <<EStr("q"), EInt(5)>> >>)>> >>)>>,
+                   <<EStr("z"), MapLit(<< <<EStr("c"), MapLit(<< <<EStr("r"), EInt(6)>> >>)>> >>)>> >>)
+JumpV(n) == {SIf(<<Br(Bin("==", Lc("v"), EInt(n)), <<SBreak>>)>>, <<>>), SIf(<<Br(Bin("==", Lc("v"), EInt(n)), <<SCont>>)>>, <<>>)}
+JumpK(k, val) == {SIf(<<Br(Bin("==", Lc(k), EStr(val)), <<SBreak>>)>>, <<>>), SIf(<<Br(Bin("==", Lc(k), EStr(val)), <<SCont>>)>>, <<>>)}
+Body3 == {b \o <<SPrint(Bin(".", Bin(".", Bin(".", Bin(".", Lc("k1"), Lc("k2")), Lc("k3")), EStr("=")), Lc("v")))>> \o c :
+            b \in Opt(UNION {JumpV(n) : n \in {1, 2, 3, 5}} \cup JumpK("k1", "y") \cup JumpK("k2", "a") \cup JumpK("k3", "q")),
+            c \in Opt(JumpV(2) \cup JumpV(4))}
+Body2 == {b \o <<SPrint(Bin(".", Bin(".", Lc("k1"), Lc("k2")), Bif("json_stringify", <<Lc("v")>>)))>> \o c :
+            b \in Opt(JumpK("k1", "y") \cup JumpK("k2", "b") \cup JumpK("k2", "a")), c \in Opt(JumpK("k2", "a"))}
+MultiForCases ==
+  {Case(EndOnly(<<>>, <<SDecl("map", "m", Deep3), SForMulti(<<"k1", "k2", "k3">>, "v", Lc("m"), b), SPrint(EStr("done")), SPrint(Lc("k1"))>>), <<>>) : b \in Body3}
+  \cup {Case(EndOnly(<<>>, <<SDecl("map", "m", Deep3), SForMulti(<<"k1", "k2">>, "v", Lc("m"), b), SPrint(EStr("done"))>>), <<>>) : b \in Body2}
+  \cup {Case(EndOnly(<<>>, <<SAssign(Lhs("oos", "m", <<>>), Deep3),
+                             SFor1("o", ArrLit(<<EInt(1), EInt(2)>>), <<SForMulti(<<"k1", "k2", "k3">>, "v", Oos("m"), b), SPrint(Lc("o"))>>), SPrint(EStr("done"))>>), <<>>) :
+           b \in {x \in Body3 : Len(x) = 2}}
+
+(***************************************************************************)
 (* "records": field assignment positions, unset, $*, oosvar persistence,    *)
 (* NR, filter, pattern-action, emit by names                                *)
 (***************************************************************************)
@@ -195,6 +218,43 @@ ExprCases ==
        \cup {Bin(o, Cond(EBool(b), EInt(1), EInt(2)), EInt(3)) : o \in ArOps, b \in BOOLEAN}
        \cup {Not(Bin(c1, EInt(1), EInt(2))) : c1 \in CmpOps} \cup {Bin("&&", Not(EBool(a)), EBool(b)) : a \in BOOLEAN, b \in BOOLEAN}}
 
-Cases == CASE Family = "scope" -> ScopeCases [] Family = "func" -> FuncCases [] Family = "loops" -> LoopCases
+(***************************************************************************)
+(* "hof": function literals (with access to the enclosing locals) and the   *)
+(* higher-order functions over arrays and maps                              *)
+(***************************************************************************)
+Lam(params, body) == [t |-> "lambda", params |-> params, body |-> body]
+Hof(f, coll, fn, init) == [t |-> "hof", f |-> f, coll |-> coll, fn |-> fn, init |-> init]
+E1 == Lc("e")
+Unary1 == {Lam(<<"e">>, <<SRet(Bin("*", E1, EInt(2)))>>), Lam(<<"e">>, <<SRet(Bin("+", E1, Lc("cap")))>>),          \* reads the enclosing local
+           Lam(<<"e">>, <<SDecl("var", "cap", EInt(100)), SRet(Bin("+", E1, Lc("cap")))>>),                          \* shadows it
+           Lam(<<"e">>, <<SIf(<<Br(Bin(">", E1, Lc("cap")), <<SRet(EStr("big"))>>)>>, <<>>), SRet(E1)>>)}
+Pred1 == {Lam(<<"e">>, <<SRet(Bin(">", E1, Lc("cap")))>>), Lam(<<"e">>, <<SRet(Bin("==", E1, EInt(3)))>>), Lam(<<"e">>, <<SRet(EBool(TRUE))>>),
+          Lam(<<"e">>, <<SRet(Bin("<", E1, EInt(0)))>>)}
+Acc2 == {Lam(<<"acc", "e">>, <<SRet(Bin("+", Lc("acc"), E1))>>), Lam(<<"acc", "e">>, <<SRet(Bin("*", Lc("acc"), E1))>>),
+         Lam(<<"acc", "e">>, <<SRet(Bin(".", Lc("acc"), E1))>>), Lam(<<"acc", "e">>, <<SRet(Bin("-", E1, Lc("acc")))>>)}
+KV1 == {Lam(<<"k", "v">>, <<SRet(MapLit(<< <<Bin(".", Lc("k"), EStr("x")), Bin("*", Lc("v"), EInt(2))>> >>))>>),
+        Lam(<<"k", "v">>, <<SRet(MapLit(<< <<Lc("k"), Bin("+", Lc("v"), Lc("cap"))>> >>))>>)}
+KVPred == {Lam(<<"k", "v">>, <<SRet(Bin(">=", Lc("v"), Lc("cap")))>>), Lam(<<"k", "v">>, <<SRet(Bin("==", Lc("k"), EStr("b")))>>)}
+Colls == {Lc("x"), ArrLit(<<>>), ArrLit(<<EInt(5)>>)}
+MapC == {Lc("m"), MapLit(<<>>)}
+NoInit == EInt(0)
+HofExprs ==
+  {Hof("apply", cl, f, NoInit) : cl \in Colls, f \in Unary1} \cup {Hof("select", cl, f, NoInit) : cl \in Colls, f \in Pred1}
+  \cup {Hof(h, cl, f, NoInit) : h \in {"any", "every"}, cl \in Colls, f \in Pred1}
+  \* (what reduce gives for an empty array is not documented)
+  \cup {Hof("reduce", cl, f, NoInit) : cl \in Colls \ {ArrLit(<<>>)}, f \in Acc2} \cup {Hof("fold", cl, f, i) : cl \in Colls, f \in Acc2, i \in {EInt(10), EStr("s")}}
+  \cup {Hof("apply", mc, f, NoInit) : mc \in MapC, f \in KV1} \cup {Hof(h, mc, f, NoInit) : h \in {"select", "any", "every"}, mc \in MapC, f \in KVPred}
+  \cup {Hof("apply", Hof("select", Lc("x"), p, NoInit), f, NoInit) : p \in Pred1, f \in Unary1}
+  \cup {Hof("fold", Hof("apply", Lc("x"), f, NoInit), g, EInt(0)) : f \in Unary1, g \in Acc2}
+HofCases ==
+  {Case(EndOnly(<<>>, <<SDecl("var", "x", ArrLit(<<EInt(1), EInt(2), EInt(3), EInt(4)>>)),
+                        SDecl("map", "m", MapLit(<< <<EStr("a"), EInt(1)>>, <<EStr("b"), EInt(2)>>, <<EStr("c"), EInt(3)>> >>)),
+                        SDecl("var", "cap", EInt(2)), SPrint(Bif("json_stringify", <<h>>)), SPrint(Lc("cap")), SPrint(Lc("e"))>>), <<>>) : h \in HofExprs}
+  \cup
+  \* a function literal held in a local and called by name, defined before the local it reads
+  {Case(EndOnly(<<>>, <<SDecl("funct", "f", fl), SDecl("var", "cap", EInt(c)), SPrint(Call("f", <<EInt(a)>>)), SPrint(Lc("cap"))>>), <<>>) :
+       fl \in Unary1 \cup Pred1, c \in {2, 7}, a \in {1, 3}}
+
+Cases == CASE Family = "multifor" -> MultiForCases [] Family = "hof" -> HofCases [] Family = "scope" -> ScopeCases [] Family = "func" -> FuncCases [] Family = "loops" -> LoopCases
            [] Family = "records" -> RecordCases [] Family = "index" -> IndexCases [] Family = "expr" -> ExprCases
 =============================================================================
